@@ -227,3 +227,15 @@ Theorem C03_src_parse_phase_order :
    ParsePhasesGen.Ph_negated_types_removed].
 Proof. reflexivity. Qed.
 Print Assumptions C03_src_parse_phase_order.
+
+(* the scheme handling of Request::from_detailed_parameters (Generated.RequestGen: the flags of the
+   no-scheme arm, the defining formulas of is_http / is_https / is_websocket / is_supported in source
+   order, the forced websocket type): evaluated with each formula seeing only the flags defined
+   before it, it IS the model's request for every scheme text, raw type, source host and party —
+   only http, https, ws and wss are supported, a websocket scheme forces the websocket type *)
+Theorem C03_src_request_scheme_handling_is_model :
+  forall (h : str -> N) (raw_type schema source_hostname : str) (third : bool),
+  Struct_Options_Proofs.interp_request h raw_type schema source_hostname third =
+  Some (from_detailed_parameters h raw_type schema source_hostname third).
+Proof. exact Struct_Options_Proofs.interp_request_is_model. Qed.
+Print Assumptions C03_src_request_scheme_handling_is_model.
